@@ -44,7 +44,8 @@ func lastIsFirstElem(names, types []string) bool {
 		if i < len(types) {
 			t = strings.TrimSpace(types[i])
 		}
-		return strings.Contains(names[i][1:], "1") && (strings.HasPrefix(t, "[") || strings.HasPrefix(t, "map<"))
+		// the list/map declaration may be wrapped: `{Reward}[]uint64` opens a struct whose first column is the list
+		return strings.Contains(names[i][1:], "1") && (strings.Contains(t, "[") || strings.Contains(t, "map<"))
 	}
 	return false
 }
